@@ -48,6 +48,36 @@ pub fn request_on(rep: &mut Report, case: u64, data: &[u8]) {
     ROUTER.with(|router| c02::check(rep, case, router, data, Some("coverage-guided"), "coverage-guided"));
 }
 
+/// one case of an ordinary engine whose generator decisions are read from `data` (a decision tape, see rng.rs): the fuzzer mutates
+/// decisions, the engine's own oracle judges. `spec` = "<engine>[,flag=value...]", e.g. "c03" or "c05,mode=c06".
+pub fn case_on(rep: &mut Report, spec: &str, data: &[u8]) {
+    let mut parts = spec.split(',');
+    let engine = parts.next().unwrap_or("");
+    // the case index (some engines walk a matrix by it) comes from the tape as well; never 0, where witnesses run
+    let k = 1 + (u16::from_le_bytes([data.first().copied().unwrap_or(0), data.get(1).copied().unwrap_or(0)]) as u64 % 4096);
+    let mut argv: Vec<String> = vec![engine.to_string(), "--shard".into(), "0".into(), "--nshards".into(), "1".into(), "--start".into(), k.to_string(), "--budget".into(), (k + 1).to_string(), "--out".into(), "/dev/null".into()];
+    for kv in parts {
+        if let Some((k, v)) = kv.split_once('=') {
+            argv.push(format!("--{k}"));
+            argv.push(v.to_string());
+        }
+    }
+    let args = Args::parse(&argv);
+    crate::rng::set_tape(Some(data));
+    let journal = rep.set_journal(false);
+    crate::engines::dispatch(&args, rep);
+    rep.set_journal(journal);
+    crate::rng::set_tape(None);
+}
+
+pub fn cases(data: &[u8]) -> bool {
+    thread_local! { static SPEC: String = std::env::var("VH_FUZZ_ENGINE").unwrap_or_else(|_| "c03".into()); }
+    if data.len() < 8 {
+        return false;
+    }
+    SPEC.with(|spec| with_null_report(|rep| { let before = rep.violations; case_on(rep, spec, data); rep.violations > before }))
+}
+
 pub fn decoders(data: &[u8]) -> bool {
     with_null_report(|rep| { let before = rep.violations; decoders_on(rep, 0, data); rep.violations > before })
 }
@@ -70,10 +100,13 @@ pub fn replay(args: &Args, rep: &mut Report) {
         let Ok(data) = std::fs::read(f) else { continue };
         rep.begin_with(i, serde_json::json!({"file": f.display().to_string()}));
         rep.count("inputs_replayed");
+        rep.input_file = Some(f.display().to_string());
         match target.as_str() {
             "request" => request_on(rep, i, &data),
+            t if t.starts_with("case:") => case_on(rep, &t[5..], &data),
             _ => decoders_on(rep, i, &data),
         }
         rep.end(i);
     }
+    rep.input_file = None;
 }
